@@ -7,10 +7,11 @@ CORRESPONDENCE = "monorail run histories (pointer file, run/<id> directories, re
 LEVEL_NOTE = ("Coq theorem C12_holds (every max_retained_runs >= 1, every history length): after the completed runs r1..rk the pointer addresses slot ((k-1) mod M)+1, "
               "that slot holds exactly rk's log files and result (wipe-then-create), each of the last min(k,M) runs is intact in its slot, and no slot outside 1..M exists. "
               "Tied to src/app/run.rs / tracking.rs / result.rs / log.rs by real run histories of 3M+2 runs with different commands, targets and outcomes per run: after "
-              "every run the on-disk state (pointer, every slot's decoded files) is compared with the extracted model and result show / log show [--id N] are checked against it.")
+              "every run the on-disk state (pointer, every slot's decoded files) is compared with the extracted model and result show / log show [--id N] are checked against it. C12_invocations_holds states the same over every sequence of invocations "
+              "(completed runs and rejected ones in any order); AsFound/C12.v refutes it for the pinned commit's slot wipe before validation.")
 TRUSTED = ["Coq 8.16.1 kernel; no axioms", "extraction + vmodel; Harness/Glue.v check_tracking", "zstd decoding of stored files by the zstd crate in the harness",
            "modelled, not verified: the Rust source"]
-RULE = ("M in {1,2,3,5} and two-digit M (10; thorough 10,11,12); 3M+2 runs per history, each with a random non-empty subset of 3 commands, explicit targets or all targets, sometimes a failing or undefined command, an aborted invocation in between (20%), or another (quick) `run` attempted while the run executes; "
+RULE = ("M in {1,2,3,5} and two-digit M (10; thorough 10,11,12); 3M+2 runs per history, each with a random non-empty subset of 3 commands, explicit targets or all targets, sometimes a failing or undefined command, an aborted invocation in between (20%), an invocation that monorail rejects before executing anything (25%: unknown target / sequence, --args with two commands, invalid argmap, command names ../7, ../1/build, x/y - exit 2, store and every retained run as before), or another (quick) `run` attempted while the run executes; "
         "non-trivial = history step at which some slot has been reused (run number > M) or a failure occurred; distinct by (M, step, invocation)")
 
 CFG = {"targets": [{"path": "libs/a"}, {"path": "libs/b", "uses": ["libs/a"]}, {"path": "app", "uses": ["libs/b/src"]}, {"path": "tools"}]}
